@@ -12,6 +12,7 @@ package verifspec
 
 //@ extern compiler/linkname.GoLinknameSet.Add
 //@   param gls entries
+//@   assigns gls.byImplementation, gls.byReference
 //@   ghost glsAdded = glsAdded + 1
 
 //@ extern compiler/internal/dce.Selector.Include
@@ -48,6 +49,7 @@ package verifspec
 //@   ghost glsAdded = 0
 //@   ghost nw = 0
 //@   ghost log = 0
+//@   loop 1 assigns gls.byImplementation, gls.byReference
 //@   loop 1 invariant 0 <= $i1 && $i1 <= len(pkgs) && glsAdded == $i1
 //@   loop 2 invariant glsAdded == len(pkgs)
 //@   loop 3 invariant glsAdded == len(pkgs)
